@@ -321,10 +321,21 @@ def run_case(case, seed):
     # term listed first: the leading vectors of the guess's interface frames are not needed for x*, so leading columns of the
     # solved cores vanish -- one sweep must still return x*
     mrk = max_ranks(dims)
+    def _adm(rv):
+        return all(rv[k_ + 1] <= rv[k_] * dims[k_] and rv[k_] <= dims[k_] * rv[k_ + 1] for k_ in range(d))
+    split = None
     if not binding and ismax and d >= 2 and case['op'] in ('dense', 'ttbuilt', 'diagfirst') and c in (False, True) and all(v >= 2 for v in mrk[1:-1]):
+        # ranks of x* and of the other term: both admissible (so that generic cores have full-rank frames, D5), summing to the maximal ranks
+        for mid in itertools.product(*[range(1, v) for v in mrk[1:-1]]):
+            ra = [1] + list(mid) + [1]; rb_ = [1] + [v - m_ for v, m_ in zip(mrk[1:-1], mid)] + [1]
+            if _adm(ra) and _adm(rb_):
+                split = (ra, rb_); break
+        if split is None:
+            r.count('low_rank_solution_no_admissible_split')
+    if split is not None:
         for eps_ in (1.0, 1e-3):
-            xt_c = rand_cores(rng, dims, [1] * d, [1] * (d + 1), c is True)
-            ex_c = rand_cores(rng, dims, [1] * d, [1] + [v - 1 for v in mrk[1:-1]] + [1], c is True)
+            xt_c = rand_cores(rng, dims, [1] * d, split[0], c is True)
+            ex_c = rand_cores(rng, dims, [1] * d, split[1], c is True)
             gc = []
             for i_ in range(d):
                 a_, b_ = eps_ * ex_c[i_] if i_ == 0 else ex_c[i_], xt_c[i_]
@@ -333,8 +344,8 @@ def run_case(case, seed):
                 elif i_ == d - 1:
                     gc.append(np.concatenate([a_, b_], axis=0))
                 else:
-                    blk = np.zeros((a_.shape[0] + 1, dims[i_], 1, a_.shape[3] + 1), dtype=a_.dtype)
-                    blk[:-1, :, :, :-1] = a_; blk[-1:, :, :, -1:] = b_
+                    blk = np.zeros((a_.shape[0] + b_.shape[0], dims[i_], 1, a_.shape[3] + b_.shape[3]), dtype=a_.dtype)
+                    blk[:a_.shape[0], :, :, :a_.shape[3]] = a_; blk[a_.shape[0]:, :, :, a_.shape[3]:] = b_
                     gc.append(blk)
             g3 = tt_from(gc); x3 = tt_from(xt_c)
             b3 = op @ x3
